@@ -6,7 +6,7 @@ theorem localOK_mediaType (T : Table) (o : Opts) (a : Attrs) (kids : List (Strin
     localOK T o (.node .mediaType a kids) vs = rulesOK o (.node .mediaType a kids) := by
   have hx := checkExt_eq T o (.node .mediaType a kids) hT (by simp [extKinds, Doc.kind])
   obtain ‚ü®h1, h2‚ü© := exampleChecks T o a .mediaType hT (by simp [exampleKinds])
-  simp (disch := decide) only [localOK, rulesOK, violations, Doc.kind, Doc.attrs, mediaTypeOKCode, exampleViols, List.all_append, all_when,
+  simp (disch := decide) only [localOK, localOKp, rulesOK, violations, Doc.kind, Doc.attrs, mediaTypeOKCode, exampleViols, List.all_append, all_when,
     extra_all, hx, enabled_plain]
   simp only [enabled]
   cases hs : a.flag "hasSchema" with
@@ -34,7 +34,7 @@ theorem localOK_header (T : Table) (o : Opts) (a : Attrs) (kids : List (String √
     localOK T o (.node .header a kids) vs = rulesOK o (.node .header a kids) := by
   have hx := checkExt_eq T o (.node .header a kids) hT (by simp [extKinds, Doc.kind])
   obtain ‚ü®h1, h2‚ü© := exampleChecks T o a .header hT (by simp [exampleKinds])
-  simp (disch := decide) only [localOK, rulesOK, violations, Doc.kind, Doc.attrs, headerOKCode, exampleViols,
+  simp (disch := decide) only [localOK, localOKp, rulesOK, violations, Doc.kind, Doc.attrs, headerOKCode, exampleViols,
     List.all_append, all_when, extra_all, hx, enabled_plain]
   simp only [enabled]
   by_cases c1 : a.str "name" = ""
@@ -69,27 +69,26 @@ theorem localOK_header (T : Table) (o : Opts) (a : Attrs) (kids : List (String √
     rcases c3 with c3 | c3 <;> cases hE : a.flag "hasExample" <;> cases hF : a.flag "hasExamples" <;>
       cases A <;> cases C <;> cases X <;> cases M <;> cases o.exDisabled <;> simp_all
 
-/-- encoding objects: unless one of the headers fails (then `Encoding.Validate` answers nil), the code's
-checks are the rules -/
+theorem encHeadersBad_false (T : Table) (o : Opts) (d : Doc) (vs : List Bool) (hT : TableOK T = true) :
+    encHeadersBad T o d vs = false := by
+  have hs := (tableFacts T hT).swallows
+  simp [encHeadersBad, hasSwallow, rowsFor, hs, anyHolds]
+
+/-- encoding objects (since 7cd29a9 no header error ends the method): the code's checks are the rules -/
 theorem localOK_encoding (T : Table) (o : Opts) (a : Attrs) (kids : List (String √ó Doc)) (vs : List Bool)
-    (hT : TableOK T = true) (hb : encHeadersBad T o (.node .encoding a kids) vs = false) :
+    (hT : TableOK T = true) :
     localOK T o (.node .encoding a kids) vs = rulesOK o (.node .encoding a kids) := by
   have hx := checkExt_eq T o (.node .encoding a kids) hT (by simp [extKinds, Doc.kind])
-  simp (disch := decide) only [localOK, rulesOK, violations, Doc.kind, Doc.attrs, encodingOKCode, hb,
+  have hb := encHeadersBad_false T o (.node .encoding a kids) vs hT
+  have hi : hasCheck T o a .encoding "identifier:headers" = true :=
+    anyHolds_of_nil o a _ (tableFacts T hT).encIdent
+  simp (disch := decide) only [localOK, localOKp, rulesOK, violations, Doc.kind, Doc.attrs, encodingOKCode, hb, hi,
     List.all_append, all_when, extra_all, hx, enabled_plain]
-  cases encodingStyleOK a <;> simp
-
-/-- encoding objects are never judged more strictly than the rules -/
-theorem localOK_encoding_of_rules (T : Table) (o : Opts) (a : Attrs) (kids : List (String √ó Doc)) (vs : List Bool)
-    (hT : TableOK T = true) (h : rulesOK o (.node .encoding a kids) = true) :
-    localOK T o (.node .encoding a kids) vs = true := by
-  cases hb : encHeadersBad T o (.node .encoding a kids) vs with
-  | true => simp [localOK, Doc.kind, encodingOKCode, hb]
-  | false => rw [localOK_encoding T o a kids vs hT hb]; exact h
+  cases encodingStyleOK a <;> cases ((Doc.node Kind.encoding a kids).kidsAt "headers").all (fun h => identOK (keyOf h)) <;> simp
 
 theorem rulesOK_inner (T : Table) (o : Opts) (a : Attrs) (kids : List (String √ó Doc)) (vs : List Bool) :
     rulesOK o (.node .innerSchemaRef a kids) = (refSibsOK o a && localOK T o (.node .innerSchemaRef a kids) vs) := by
-  simp only [localOK, rulesOK, violations, Doc.kind, Doc.attrs, refViols_all, refOK]
+  simp only [localOK, localOKp, rulesOK, violations, Doc.kind, Doc.attrs, refViols_all, refOK]
 
 theorem templateCode_of_spec (vars common : List String) (op : Doc) (h : templateOKSpec vars common op = true) :
     templateOKCode vars common op = true := by
@@ -118,7 +117,7 @@ theorem localOK_paths_eq (T : Table) (o : Opts) (a : Attrs) (kids : List (String
     localOK T o (.node .paths a kids) vs =
       (((Doc.node .paths a kids).kidsAt "pathItems").all pathItemOKCode && pathsRest T o (.node .paths a kids)) := by
   have hx := checkExt_eq T o (.node .paths a kids) hT (by simp [extKinds, Doc.kind])
-  simp only [localOK, Doc.kind, pathsRest, hx, Bool.and_assoc]
+  simp only [localOK, localOKp, Doc.kind, pathsRest, hx, Bool.and_assoc]
 
 theorem rulesOK_paths_eq (T : Table) (o : Opts) (a : Attrs) (kids : List (String √ó Doc)) :
     rulesOK o (.node .paths a kids) =
